@@ -165,6 +165,57 @@ def others(ctx, rnd):
             if not okk:
                 ctx.violation(f'C18|position|{name}', f'{name} artist is not at the region position minus the origin', {'position': [x, y], 'origin': [ox, oy]})
     ctx.traces += n
+    plot_routes(ctx, rnd)
+
+
+def plot_routes(ctx, rnd):
+    """plot(origin, ax, **kwargs) puts on the axes exactly the artist as_artist(origin, **kwargs) returns (regions and bounding boxes)."""
+    import astropy.units as u
+    import matplotlib
+    matplotlib.use('Agg')
+    import matplotlib.pyplot as plt
+
+    import regions as R
+    from regions import PixCoord
+    fig, ax = plt.subplots()
+    c = PixCoord(12.5, -3.0)
+    regs = [R.CirclePixelRegion(c, 4), R.EllipsePixelRegion(c, 6, 3, angle=200 * u.deg), R.RectanglePixelRegion(c, 6, 3, angle=-30 * u.deg),
+            R.PolygonPixelRegion(PixCoord([1, 9, 4], [2, 3, 8])), R.CircleAnnulusPixelRegion(c, 2, 5), R.RectangleAnnulusPixelRegion(c, 2, 6, 1, 3, angle=70 * u.deg),
+            R.PointPixelRegion(c), R.LinePixelRegion(c, PixCoord(1, 1)), R.TextPixelRegion(c, 'abc'), R.RegularPolygonPixelRegion(c, 6, 3.0),
+            R.RegionBoundingBox(2, 9, -4, 3)]
+    n = 0
+
+    def geometry(a):
+        if hasattr(a, 'get_path'):
+            tr = a.get_patch_transform() if hasattr(a, 'get_patch_transform') else None
+            return np.asarray((tr.transform_path(a.get_path()) if tr is not None else a.get_path()).vertices).round(9).tolist()
+        if hasattr(a, 'get_xydata'):
+            return np.asarray(a.get_xydata()).round(9).tolist()
+        return [float(v) for v in a.get_position()] + [a.get_text()]
+    for reg in regs:
+        for origin in ((0, 0), (3.5, -2)):
+            kw = {'origin': origin}
+            extra = {'color': 'magenta'} if isinstance(reg, (R.PointPixelRegion, R.TextPixelRegion)) else {'edgecolor': 'magenta', 'linewidth': 3}
+            with warnings.catch_warnings():
+                warnings.simplefilter('ignore')
+                before = len(ax.patches) + len(ax.lines) + len(ax.texts)
+                try:
+                    got = reg.plot(ax=ax, **kw, **extra)
+                    # (a bounding box is drawn as the rectangle region of the box: its own as_artist takes no origin)
+                    want = (reg.to_region() if isinstance(reg, R.RegionBoundingBox) else reg).as_artist(**kw, **extra)
+                except Exception as ex:  # noqa
+                    ctx.violation(f'C18|plot|raises|{type(reg).__name__}', f'plot raised {ex!r}', {'region': repr(reg), 'origin': list(origin)})
+                    continue
+                after = len(ax.patches) + len(ax.lines) + len(ax.texts)
+            n += 1
+            ctx.case(('plot', type(reg).__name__, origin), True)
+            on_axes = got in list(ax.patches) + list(ax.lines) + list(ax.texts)
+            if not on_axes or after != before + 1 or type(got) is not type(want) or geometry(got) != geometry(want):
+                ctx.violation(f'C18|plot|{type(reg).__name__}', 'plot() does not put on the axes the artist that as_artist() returns',
+                              {'region': repr(reg), 'origin': list(origin), 'on_axes': on_axes, 'added': after - before})
+    plt.close(fig)
+    ctx.traces += n
+    ctx.note('plot_routes', n)
 
 
 def kwargs_replay(ctx):
